@@ -499,8 +499,47 @@ class Project:
   def func(self, q: str) -> FuncInfo:
     f = self.funcs.get(q)
     if f is None:
+      f = self._relocated(q)
+    if f is None:
       raise AnalysisError(f'anchor function {q} not found')
     return f
+
+  def _relocated(self, q: str) -> Optional[FuncInfo]:
+    """A function that was moved to another module or (un)privatised.
+
+    Anchors name functions by qualified name; a refactoring that moves a
+    private helper into another private module, or drops / adds the leading
+    underscore, keeps its role.  If exactly one function (or method of the
+    same class name) in the analysed tree has the same bare name, it is the
+    anchor.  Imported aliases are followed first.
+    """
+    modq, _, name = q.rpartition('.')
+    mod = self.modules.get(modq)
+    if mod is not None:
+      # `from other import name` / `name = other.name` in the old module
+      tgt = mod.imports.get(name) if hasattr(mod, 'imports') else None
+      if tgt and tgt in self.funcs:
+        return self.funcs[tgt]
+      alias = mod.assigns.get(name) if hasattr(mod, 'assigns') else None
+      if alias is not None:
+        r = self.resolve(alias, mod)
+        if r in self.funcs:
+          return self.funcs[r]
+    bare = name.lstrip('_')
+    owner = modq.rsplit('.', 1)[-1] if modq in self.classes else None
+    cands = []
+    for fq, f in self.funcs.items():
+      if f.is_lambda:
+        continue
+      if f.name.lstrip('_') != bare:
+        continue
+      if owner is not None:
+        if f.cls is None or f.cls.name != owner:
+          continue
+      elif f.cls is not None or '.' in fq[len(f.module.name) + 1:]:
+        continue  # methods / nested functions do not stand in for module ones
+      cands.append(f)
+    return cands[0] if len(cands) == 1 else None
 
   def cls(self, q: str) -> ClassInfo:
     c = self.classes.get(q)
